@@ -25,16 +25,16 @@ type checkDef struct {
 }
 
 var checks = map[string]checkDef{
-	"C01": {pkg: "verif/mc/checks/c01", shapes: []string{"nest16", "nestrep", "mini", "flat24", "person", "document", "repetition", "readme", "obool", "flat3", "samename", "reqdeep", "nest3", "oddnames", "wide70", "deep5", "samedeep", "rbool", "one", "oneopt", "onerep"}},
-	"C02": {pkg: "verif/mc/checks/c02", shapes: []string{"nest16", "nestrep", "mini", "flat24", "person", "document", "repetition", "readme", "obool", "flat3", "samename", "reqdeep", "nest3", "oddnames", "wide70", "deep5", "samedeep", "rbool", "one", "oneopt", "onerep"}},
-	"C03": {pkg: "verif/mc/checks/c03", shapes: []string{"nest16", "nestrep", "mini", "person", "document", "repetition", "readme", "flat3", "samename", "reqdeep", "nest3", "oddnames", "wide70", "deep5", "samedeep"}},
-	"C04": {pkg: "verif/mc/checks/c04", shapes: []string{"nest16", "nestrep", "mini", "person", "document", "flat3", "obool"}},
+	"C01": {pkg: "verif/mc/checks/c01", shapes: []string{"rep3", "ochain", "nest16", "nestrep", "mini", "flat24", "person", "document", "repetition", "readme", "obool", "flat3", "samename", "reqdeep", "nest3", "oddnames", "wide70", "deep5", "samedeep", "rbool", "one", "oneopt", "onerep"}},
+	"C02": {pkg: "verif/mc/checks/c02", shapes: []string{"ochainw", "rep3", "ochain", "nest16", "nestrep", "mini", "flat24", "person", "document", "repetition", "readme", "obool", "flat3", "samename", "reqdeep", "nest3", "oddnames", "wide70", "deep5", "samedeep", "rbool", "one", "oneopt", "onerep"}},
+	"C03": {pkg: "verif/mc/checks/c03", shapes: []string{"ochainw", "rep3", "ochain", "nest16", "nestrep", "mini", "person", "document", "repetition", "readme", "flat3", "samename", "reqdeep", "nest3", "oddnames", "wide70", "deep5", "samedeep"}},
+	"C04": {pkg: "verif/mc/checks/c04", shapes: []string{"rep3", "ochain", "nest16", "nestrep", "mini", "person", "document", "flat3", "obool"}},
 	"C05": {pkg: "verif/mc/checks/c05"},
 	"C06": {pkg: "verif/mc/checks/c06", shapes: []string{"mini", "flat3", "person", "one", "oneopt", "onerep", "rbool"}},
 	"C07": {pkg: "verif/mc/checks/c07"},
-	"C08": {pkg: "verif/mc/checks/c08", shapes: []string{"nest16", "nestrep", "mini", "person", "flat24", "document", "reqdeep", "flat3", "tailstr"}},
+	"C08": {pkg: "verif/mc/checks/c08", shapes: []string{"rep3", "ochain", "nest16", "nestrep", "mini", "person", "flat24", "document", "reqdeep", "flat3", "tailstr"}},
 	"C09": {pkg: "verif/mc/checks/c09", shapes: []string{"mini", "person", "tailstr"}},
-	"C10": {pkg: "verif/mc/checks/c10", shapes: []string{"nest16", "nestrep", "mini", "person", "flat24", "document", "flat3", "tailstr"}},
+	"C10": {pkg: "verif/mc/checks/c10", shapes: []string{"rep3", "ochain", "nest16", "nestrep", "mini", "person", "flat24", "document", "flat3", "tailstr"}},
 	"C11": {pkg: "verif/mc/checks/c11", shapes: []string{"mini", "person", "flat24", "flat3", "tailstr", "idonly"}},
 	"C12": {pkg: "verif/mc/checks/c12", shapes: []string{"flat24", "person", "document", "nest16"}},
 	"C13": {pkg: "verif/mc/checks/c13", shapes: []string{"mini", "flat3", "flat24"}, modfile: "go.sched.mod"},
